@@ -16,7 +16,12 @@ fn main() {
         std::process::exit(2);
     }
     // panics inside catch_unwind are expected in places: keep stderr quiet
-    std::panic::set_hook(Box::new(|_| {}));
+    // (any other panic is echoed with its location: ./check shows it when the process dies)
+    std::panic::set_hook(Box::new(|info| {
+        if util::EXPECT_PANIC.with(|c| c.get()) == 0 {
+            eprintln!("panic: {}", info.to_string().replace('\n', " "));
+        }
+    }));
     let a = util::parse_args(&args[2..]);
     match args[1].as_str() {
         "remoteaddr" => remoteaddr::run(&a),
